@@ -4,4 +4,16 @@ META = {
         "note": "Trusted: gosym's SSA semantics (validated by native replay of sample paths on every run), z3; SHA-256 is an uninterpreted function (only functional consistency assumed).",
     },
 }
+META["C09"] = {
+    "text": "Bounded symbolic model checking of every binary decoding entry point on an arbitrary symbolic buffer (and on crafted prefixes whose length/count field is 1..9 arbitrary bytes): the solver decides, for all contents at each explored length, that no fault is reachable, that bytes-read never exceeds the input and that every allocation is within 16*len+4096 bytes.",
+    "note": "Trusted: gosym SSA semantics incl. its model of append growth; z3. Allocation sizes above the stated exploration cap are checked against the obligation but not executed (cut listed in evidence). JSON entry points are covered under C16's harnesses.",
+}
+META["C02"] = {
+    "text": "Bounded symbolic model checking: the real CalcInputPreimage/CalcInputSignatureHash are executed symbolically for every transaction shape up to the bound, with all field values, the input index and the 8-bit hash type (all 128 FORKID values) symbolic, and compared byte-for-byte with a reference written from the BSV replay-protected-sighash specification; the reference itself is validated natively against the node's 500 sighash_bip143.json vectors on every run.",
+    "note": "Trusted: gosym, z3; SHA-256 is an uninterpreted function (functional consistency only), so equality of digests is decided as equality of preimages.",
+}
+META["C03"] = {
+    "text": "As C02 for the legacy algorithm: all 128 non-FORKID hash types, in-range indices, shapes up to the bound; reference written from the original SignatureHash (including the SINGLE out-of-range constant 1) and validated natively against the node's 500 sighash_legacy.json vectors.",
+    "note": "Trusted: gosym, z3; SHA-256 uninterpreted. Previous txids are 32 bytes (as the property's quantifier states).",
+}
 NOT_APPLICABLE = {}
